@@ -132,11 +132,26 @@ def run_case(ctx, index: int, *, salt="proj"):
     return found, summary, project
 
 
+WALL_LIMIT = {"quick": 240, "thorough": 1500}
+
+
 async def search(ctx):
+    import time
+
+    t0 = time.time()
+    broken_runs = 0
     n = ctx.budget(130, 2400)
     st = ctx.stats
     for i in range(n):
         found, summary, project = await asyncio.to_thread(run_case, ctx, i)
+        broken_runs += sum(1 for sig, _, _ in found if sig.startswith("director-"))
+        if broken_runs >= 3 or time.time() - t0 > WALL_LIMIT[ctx.tier]:
+            # a director that hangs or dies costs a watchdog period per case: the violation is
+            # recorded, there is no point in paying for it hundreds of times
+            st.count("search-stopped-early-after-cases", i + 1)
+            stop = True
+        else:
+            stop = False
         st.case(("proj", i, summary["family"]), nontrivial=summary["distinct_traces"] > 1)
         st.programs += 1
         st.count("projects:" + summary["family"])
@@ -160,6 +175,11 @@ async def search(ctx):
                 "how": "props/c02.py run_case(ctx, index): the project is built from scratch with SimDirector under "
                        "each configuration (buildkit.build_kwargs) and the results are compared",
             }))
+        if stop:
+            break
+    import normcorr
+
+    await normcorr.oracle(ctx)
     if not st.rule:
         st.rule = ("a case is one project built under 4 configurations (njob 1/4/2/3, FIFO/LIFO/random, resources as "
                    "configured or larger) plus one resumed-unchanged build; even indices: projgen projects (12 % with a "
